@@ -453,3 +453,75 @@ Qed.
 
 Lemma row_eqb_spec a b : row_eqb a b = true <-> a = b.
 Proof. apply GMS.Base.CorrLib.list_eqb_spec. exact val_eqb_spec. Qed.
+
+(* ------------------------------------------------------------------ index order replaces the sort soundly *)
+Lemma compare_rows_flip cs a b :
+  compare_rows (map (mk_key true) cs) a b = compare_rows (map (mk_key false) cs) b a.
+Proof.
+  induction cs as [|c cs IH]; [reflexivity|]. cbn [map compare_rows]. rewrite IH.
+  unfold key_cmp, mk_key. cbn [k_col k_ty k_desc k_nulls_last]. reflexivity.
+Qed.
+
+Lemma leb_prefix k1 k2 a b : leb (compare_rows (k1 ++ k2)) a b = true -> leb (compare_rows k1) a b = true.
+Proof.
+  unfold leb. induction k1 as [|k k1 IH]; cbn [app compare_rows]; [reflexivity|].
+  destruct (key_cmp k a b); auto.
+Qed.
+
+Lemma sorted_weaken {A} (c1 c2 : A -> A -> comparison) l :
+  (forall a b, leb c1 a b = true -> leb c2 a b = true) -> sorted c1 l -> sorted c2 l.
+Proof.
+  intros H. induction l as [|x t IH]; cbn [sorted]; [auto|]. intros [HF HS]. split; [|apply IH; exact HS].
+  eapply Forall_impl; [|exact HF]. cbn. intros y. apply H.
+Qed.
+
+Lemma sorted_rev {A} (c : A -> A -> comparison) l : sorted c l -> sorted (fun a b => c b a) (rev l).
+Proof.
+  induction l as [|x t IH]; cbn [sorted rev]; [auto|]. intros [HF HS].
+  apply (sorted_app (fun a b => c b a)). split; [apply IH; exact HS|]. split; [split; [constructor|exact I]|].
+  intros a b Ha [<-|[]]. apply in_rev in Ha. rewrite Forall_forall in HF. unfold leb in *. apply HF. exact Ha.
+Qed.
+
+(* the guard pins the shape of the sort conditions: a prefix of the index columns, all in one direction *)
+Lemma guard_shape ks idx : idx_guard ks idx = true ->
+  exists n d, ks = map (mk_key d) (firstn n idx) /\ d = match ks with k :: _ => k_desc k | [] => false end.
+Proof.
+  unfold idx_guard. destruct ks as [|k0 ks0]; [discriminate|]. set (ks := k0 :: ks0). intros H.
+  apply andb_prop in H. destruct H as [HD HP]. exists (length ks), (k_desc k0). split; [|reflexivity].
+  unfold same_dir in HD. cbn [ks] in HD. fold ks in HD. rewrite forallb_forall in HD.
+  clearbody ks. revert idx HP. induction ks as [|k t IH]; intros idx HP; [reflexivity|].
+  destruct idx as [|c idx']; [discriminate|]. cbn [prefix_match] in HP. apply andb_prop in HP. destruct HP as [HK HP].
+  cbn [length firstn map]. f_equal.
+  - unfold key_matches in HK. apply andb_prop in HK. destruct HK as [HK Hn]. apply andb_prop in HK. destruct HK as [Hc Ht].
+    pose proof (HD k (or_introl eq_refl)) as Hd. apply Bool.eqb_prop in Hd. apply Nat.eqb_eq in Hc.
+    destruct k as [kc kt kd kn]. destruct c as [cc ct]. unfold mk_key. cbn in *. subst.
+    destruct kn; [discriminate|]. destruct kt, ct; try discriminate; reflexivity.
+  - apply IH; [intros x Hx; apply HD; right; exact Hx|exact HP].
+Qed.
+
+Theorem index_scan_sorted ks idx rows : idx_guard ks idx = true ->
+  Permutation (plan_index ks idx rows) rows /\ sorted (compare_rows ks) (plan_index ks idx rows).
+Proof.
+  intros HG. destruct (guard_shape ks idx HG) as [n [d [Eks Ed]]]. unfold plan_index. rewrite <- Ed. clear Ed.
+  unfold index_storage, index_scan.
+  set (full := map (mk_key false) idx).
+  assert (Hsplit : full = map (mk_key false) (firstn n idx) ++ map (mk_key false) (skipn n idx)).
+  { unfold full. rewrite <- map_app, firstn_skipn. reflexivity. }
+  pose proof (ssort_sorted _ (compare_rows_po full) rows) as HS.
+  pose proof (ssort_perm (compare_rows full) rows) as HP.
+  assert (HSpre : sorted (compare_rows (map (mk_key false) (firstn n idx))) (ssort (compare_rows full) rows)).
+  { eapply sorted_weaken; [|exact HS]. intros a b. rewrite Hsplit. apply leb_prefix. }
+  destruct d; subst ks.
+  - split; [rewrite <- HP at 2; symmetry; apply Permutation_rev|].
+    eapply sorted_weaken; [|apply sorted_rev; exact HSpre].
+    intros a b. unfold leb. rewrite compare_rows_flip. auto.
+  - split; [exact HP|exact HSpre].
+Qed.
+
+(* with LIMIT n OFFSET m on top: a window of an ordering consistent with the keys *)
+Theorem index_plan_is_slice ks idx rows m n : idx_guard ks idx = true ->
+  is_slice (compare_rows ks) rows m n (firstn n (skipn m (plan_index ks idx rows))).
+Proof.
+  intros HG. destruct (index_scan_sorted ks idx rows HG) as [HP HS].
+  exists (plan_index ks idx rows). split; [exact HP|]. split; [exact HS|reflexivity].
+Qed.
